@@ -27,3 +27,10 @@ package selector
 //@   loop 2 modifies elems(staticWeightRouterCache), elems(weightToId)
 //@   loop 3 modifies elems(staticWeightRouterCache), elems(mulTemp)
 //@   safety [C13]
+//
+// The Selector interface as seen by the endpoint manager: an implementation keeps its own state and touches
+// nothing of its caller (trusted here; the four implementations are under contract in their packages).
+//
+//@ func (Selector).Select
+//@   trusted
+//@   allocates
